@@ -25,7 +25,7 @@ CLIENT_OPS = ["bind_simple", "bind_sasl", "search", "extended", "unbind", "drain
               "recv_extended_response", "recv_notice", "recv_extended_request", "recv_unbind",
               "recv2_extended_response", "recv2_search_done", "search_unencodable"]
 SERVER_OPS = ["bind_response", "extended_response", "notice", "search_entry", "search_reference", "search_done",
-              "unbind", "drain", "drain_none",
+              "search_done_unencodable", "unbind", "drain", "drain_none",
               "recv_bind_request", "recv_search_request", "recv_extended_request", "recv_unbind", "recv_extended_response"]
 # the same operations carrying a paged-results control with a symbolic non-empty cookie ("@p"):
 # controls are an argument of every call and a field of every message, and must not influence the
@@ -398,6 +398,9 @@ def do_op(ctx, sess, side, op, tag):
                 info["ret"] = sess.search_result_reference(mid, ["ldap://x"])
             elif op == "search_done":
                 info["ret"] = sess.search_result_done(mid, rc, controls=ctl)
+            elif op == "search_done_unencodable":
+                # the diagnostic text holds a lone surrogate: encoding fails inside pack(), after validation
+                info["ret"] = sess.search_result_done(mid, rc, diagnostics_message="x\udc80")
             else:
                 raise ValueError(op)
     except Exception as e:  # noqa: BLE001
@@ -451,7 +454,7 @@ def check_step(ctx, side, pre, info, post, props, tag=""):
         req("C12", len(appended) == 0, "receive-contributed-bytes-to-the-stream")
     if rejected:
         # ---- C10: refusal has no wire effect and uses the library's own error type
-        if not is_ldap_error(ctx, exc) and op != "search_unencodable":
+        if not is_ldap_error(ctx, exc) and op not in ("search_unencodable", "search_done_unencodable"):
             fail("C10", "call-fails-with-foreign-exception", f"{info['exc_name']}@{info['exc_site']}")
         if not op.startswith("recv"):
             req("C10", len(appended) == 0, "refused-call-left-bytes-queued:" + op)
@@ -459,7 +462,7 @@ def check_step(ctx, side, pre, info, post, props, tag=""):
             if pre["state"] != "CLOSED" and is_ldap_error(ctx, exc):
                 # (a call that fails on an invalid argument - text that cannot be encoded - is a
                 # caller error, not a refusal by the state machine; only C09/C12's clauses apply)
-                req("C08", post["state"] == pre["state"], "refused-call-changed-state:" + op)
+                req("C08", post["state"] == pre["state"], "refused-call-changed-state:" + op.replace("_unencodable", ""))
     # ---- C08: CLOSED is final
     if pre["state"] == "CLOSED":
         req("C08", rejected, "closed-session-accepted:" + op)
@@ -638,6 +641,14 @@ def _server(ctx, pre, info, post, appended, rejected, req, fail, props):
         return
     # ---- responses sent by the server
     x = info["mid"]
+    if op == "search_done_unencodable":
+        # a send that fails (refused, or inside the encoder) contributes nothing, retires nothing and
+        # leaves the state alone - an operation retired here would let a bind start while it is
+        # still outstanding
+        req("C12", rejected and len(appended) == 0, "failed-send-contributes-bytes-to-the-stream:" + op)
+        req("C10", ctx.all(set_eq(ctx, post["O"], O), set_eq(ctx, post["S"], S)), "failed-send-changed-the-bookkeeping")
+        req("C08", ctx.all(set_eq(ctx, post["O"], O), post["state"] == pre["state"]), "failed-send-retired-an-operation-or-changed-state")
+        return
     is_notice = op == "notice"
     in_O = in_set(ctx, x, O)
     allowed_in_binding = op == "bind_response" or is_notice
